@@ -914,8 +914,13 @@ class Flow(NLRI):
         bgp = self._packed
 
         # Skip RD for flow_vpn
-        if self.safi in (SAFI.flow_vpn,) and len(bgp) >= 8:
-            bgp = bgp[8:]
+        if self.safi in (SAFI.flow_vpn,):
+            if self._rd_override is None and len(bgp) < 8:
+                # a flow-vpn NLRI starts with its 8 byte route distinguisher (RFC 8955 8): parsing
+                # a shorter one as rules delivered a filter outside of any VPN
+                raise Notify(3, 10, 'flow-vpn NLRI of %d bytes has no room for a route distinguisher' % len(bgp))
+            if len(bgp) >= 8:
+                bgp = bgp[8:]
 
         try:
             while bgp:
